@@ -956,3 +956,38 @@ impl CKBProtocolHandler for Relayer {
         );
     }
 }
+
+/// verification hooks (compiled only with `--cfg ckb_verif`): the crate-private context-free relay verifiers,
+/// callable by an external conformance harness exactly as the message processors call them
+#[cfg(ckb_verif)]
+pub mod verif_hooks {
+    use crate::Status;
+    use ckb_types::{core, packed};
+
+    /// `CompactBlockVerifier::verify` as called by `CompactBlockProcess::execute`
+    pub fn compact_block_verify(block: &packed::CompactBlock) -> Status {
+        super::compact_block_verifier::CompactBlockVerifier::verify(block)
+    }
+
+    /// `BlockTransactionsVerifier::verify` as called by `BlockTransactionsProcess::execute`
+    pub fn block_transactions_verify(
+        block: &packed::CompactBlock,
+        indexes: &[u32],
+        transactions: &[core::TransactionView],
+    ) -> Status {
+        super::block_transactions_verifier::BlockTransactionsVerifier::verify(
+            block,
+            indexes,
+            transactions,
+        )
+    }
+
+    /// `BlockUnclesVerifier::verify` as called by `BlockTransactionsProcess::execute`
+    pub fn block_uncles_verify(
+        block: &packed::CompactBlock,
+        indexes: &[u32],
+        uncles: &[core::UncleBlockView],
+    ) -> Status {
+        super::block_uncles_verifier::BlockUnclesVerifier::verify(block, indexes, uncles)
+    }
+}
